@@ -333,6 +333,19 @@ def run(rep, crate, cfg):
     for f, bi, t in cons:
         tb = terms.TermBuilder(f)
         key = tb.operand(bi, "T", t["args"][0])
+        # a consumer that hands the plan to with_encoding_plan is covered by that function's own count assertion
+        # (C18-R4 count-check): a plan for a different count is refused there, whatever key was asked for
+        handed = False
+        mine = tb.call_term(bi, t)
+        for bj, t2 in f.calls():
+            ct2 = tb.call_term(bj, t2)
+            if ct2[0] == "call" and isinstance(ct2[1], str) and ct2[1].endswith("SourceBlockEncoder::with_encoding_plan") and \
+                    terms.find(mine, ct2[2][-1]) is not None:
+                handed = True
+        if handed:
+            rep.ok(R4, mir.stmt_loc(t), "%s passes the cached plan to with_encoding_plan, which refuses a plan made for another symbol count" %
+                   f.key.split("::")[-1], None, cfg)
+            continue
         m = match(("cast", "u16", ("call", V("len", lambda x: isinstance(x, str) and x.endswith("::len")), (V("v"),))), key)
         conds_ = [terms.canon_cond(N(c), v) for c, v in tb.path_conditions(bi)]
         guard = m is not None and any(v and c == N(("op", "Le", ("call", m["len"], (m["v"],)), ("const", 65535))) for c, v in conds_)
